@@ -18,7 +18,7 @@ CHECKS = {
         ref="DESIGN 3/C15",
         note=TB + "; memoisation of any kind is treated as state (the library documents itself as stateless)"),
     "C17": dict(
-        technique="static effect analysis + control dependence (ast CFG, guard-literal dataflow, reaching definitions): I/O primitives reachable through the resolved call graph must be dominated by the show/save_report tests; polarity of the validity guard around the preview's hex rendering; raw-entry provenance of converter arguments in the report region",
+        technique="static effect analysis + control dependence (ast CFG, guard-literal dataflow, reaching definitions): I/O primitives reachable through the resolved call graph must be dominated by the show/save_report tests; polarity of the validity guard around the preview's hex rendering; raw-entry provenance of converter arguments in the report region; destructuring in the preview region dominated by a test of the unpacked name",
         category="other",
         text="Enumerates every I/O primitive reachable from the public API and proves, over all CFG paths, that each executes only under the "
              "requested flag (conditional I/O summaries are translated through call sites), that constructors/queries reach none, that nothing defined "
@@ -88,7 +88,7 @@ CHECKS = {
         ref="DESIGN 3/C16",
         note=TB + "; contracts (sa/contracts.py) transcribe the property; calculate_contrast_ratio / calculate_delta_e_2000 and the colour-preserving format wrappers are uninterpreted (their correctness: C05/C11/C06); A1 no NaN; oklch_to_rgb_safe yields valid 8-bit triples (C10)"),
     "C05": dict(
-        technique="static formula-shape and constant audit: closed-form extraction from the ast (temporaries and helpers inlined, hash-consed DAG), alignment with the WCAG definition modulo commutativity, per-constant comparison, partial evaluation of the label if-chains",
+        technique="static formula-shape and constant audit: closed-form extraction from the ast (temporaries and helpers inlined, hash-consed DAG), alignment with the WCAG definition modulo commutativity, per-constant comparison, partial evaluation of the label if-chains; loop-carried-dependence rule (borrowed from C12) on what a bulk entry is labelled with",
         category="other",
         text="Decides that the source *is* the WCAG 2 formula: linearisation curve, the three weights bound to their channels, (max+0.05)/(min+0.05) (symmetric, >= 1 by shape), inclusive thresholds per text size, the level/label "
              "mapping over the closed set of levels. A fourth-decimal weight error or a non-inclusive threshold changes results only on a thin set of inputs the tests never touch, but is one mismatching node here. "
@@ -141,7 +141,7 @@ CHECKS = {
         ref="DESIGN 3/C09",
         note=TB + "; tinycss2 keeps whitespace/comment tokens when the skip_* flags are False and serialises untouched tokens verbatim"),
     "C08": dict(
-        technique="static path rules over the ast CFG (exactly-one-counter counting dataflow incl. exception edges, must-pass-through with boolean-flag path sensitivity), reaching-definition origins for written == reported == API value, allocation-site ownership of declaration lists for write survival, constant-table agreement; hole-by-hole value flow of the report card; optional-value (regex match) dereference discipline over the short-circuit CFG",
+        technique="static path rules over the ast CFG (exactly-one-counter counting dataflow incl. exception edges, must-pass-through with boolean-flag path sensitivity), reaching-definition origins for written == reported == API value, allocation-site ownership of declaration lists for write survival, constant-table agreement; hole-by-hole value flow of the report card; optional-value (regex match) dereference discipline over the short-circuit CFG; store census of the settings inside the rule loop",
         category="other",
         text="Decides, for every stylesheet shape at once: each rule with a text colour increments exactly one counter; the value written, the value reported and pair.make_readable(mode, very_readable=premium)[0] are one value; every 'adjusted' path writes and no other path does; "
              "every write lands in the list that is serialised last into its rule; the CLI target equals the optimiser's minimum; last declaration wins; nested recursion forwards everything. Re-derived two genuine defects (F-C08a: var() fallback/undefined reported adjusted but unwritten; "
